@@ -7,6 +7,8 @@ from .. import bits, paths
 from ..core import call_attr, calls_in, const, dotted, is_const, kwarg, norm, slice_parts, text, walk_local
 
 EXPLANATION = [
+    'C08.reset-before-sink: EnhancedRetransmissionProcessor.on_pdu empties its reassembly buffer before the completed SDU is handed to the channel on every path.',
+    'C08.frames-via-channel: every frame sent by a *Processor class of bumble.l2cap goes through self.channel.send_pdu (which applies the negotiated FCS); none is handed to the channel manager directly.',
     "C08.disconnecting-stays-registered: the failure handler of create_classic_channel does not remove a channel that is in WAIT_DISCONNECT: the peer's Disconnection Response still finds it and closes it, so a mode mismatch ends with both ends closed.",
     'C08.config-options: (shared with C18) the configuration-option decoder loops while a 2-byte header is left and takes exactly the announced value bytes: the 3-byte FCS option (always last) is never dropped, so both ends agree on the FCS setting.',
     'C08.piggyback-ack: every site of EnhancedRetransmissionProcessor that serialises a pending I-frame sets its req_seq from the current receive state (self._req_seq_num) first.',
@@ -618,7 +620,41 @@ def disconnecting_stays_registered(ctx):
                 'the failure handler removes the channel from the table whatever its state: after a mode mismatch the Disconnection Response finds no channel, the initiator\'s channel stays in WAIT_DISCONNECT while the peer\'s is CLOSED', p.loc(c))
 
 
+def frames_via_channel(ctx):
+    """Every frame a transmission-mode processor sends (I-frames and S-frames alike) goes through ClassicChannel.send_pdu, the
+    one place that applies the negotiated FCS setting (and the open-state check): a frame handed to the channel manager
+    directly goes out without FCS on a channel that negotiated it, and the receiver then cuts two octets off it."""
+    R, p = ctx.r, ctx.p
+    rule = 'C08.frames-via-channel'
+    m = p.modules.get('bumble.l2cap')
+    if m is None:
+        R.bad(rule, 'bumble.l2cap', 'anchor missing')
+        return
+    n = 0
+    for cn, ci in sorted(p.classes.items()):
+        if not (cn.startswith('bumble.l2cap.') and ci.name.endswith('Processor')):
+            continue
+        for name, fn in sorted(ci.methods.items()):
+            for c in calls_in(fn):
+                d = dotted(c.func) or ''
+                if d == 'self.channel.send_pdu':
+                    n += 1
+                elif d.endswith('manager.send_pdu') or d.endswith('manager.send_control_frame') and False:
+                    R.bad(rule, f'{cn}.{name} | {d}', f'{name} hands a frame to the channel manager directly (`{d}`): the negotiated FCS is not appended (ChannelManager.send_pdu defaults to no FCS), the receiver strips the last two octets of the frame and cannot parse it - acknowledgements are lost and the transmit window never reopens', p.loc(c))
+    send = p.find(f'{CC}.send_pdu')
+    ok = send is not None and any((dotted(c.func) or '').endswith('manager.send_pdu') and any('fcs_enabled' in norm(a) for a in list(c.args) + [k.value for k in c.keywords]) for c in calls_in(send))
+    R.check(ok, rule, f'{CC}.send_pdu | applies FCS', 'passes self.fcs_enabled to the manager', 'ClassicChannel.send_pdu does not pass the negotiated FCS setting on', p.loc(send) if send is not None else '')
+    R.check(n >= 3, rule, 'bumble.l2cap | processor sends', f'{n} sends, all through self.channel.send_pdu', f'only {n} found')
+
+
+def reset_before_sink(ctx):
+    from ..generic_rules import reset_before_handoff
+    reset_before_handoff(ctx, 'C08.reset-before-sink', 'bumble.l2cap.EnhancedRetransmissionProcessor.on_pdu', 'self._in_sdu', 'self.channel.on_sdu')
+
+
 RULES = [
+    ('C08.reset-before-sink', reset_before_sink),
+    ('C08.frames-via-channel', frames_via_channel),
     ('C08.disconnecting-stays-registered', disconnecting_stays_registered),
     ('C08.config-options', config_options_rule),
     ('C08.piggyback-ack', piggyback_ack),
